@@ -189,7 +189,7 @@ func main() {
 		os.WriteFile(name+".tmp", eb, 0o644)
 		os.Rename(name+".tmp", name)
 	}
-	b := jsonx.Marshal(outs)
+	b := jsonx.MarshalStyle(outs, simrun.OutsStyle(id))
 	if has {
 		switch fault.Kind {
 		case "exit":
